@@ -75,6 +75,17 @@ def outcome(fn):
         return ("exc", type(e).__name__, H.family(e))
 
 
+def _other_cat(db, cat, k=0):
+    """a category of another quantity type than `cat`'s (two candidates)"""
+    qt = db.GetCategoryQuantityType(cat)
+    cands = [c for c in ("time", "mass", "length") if c in db.categories_to_quantity_types and db.GetCategoryQuantityType(c) != qt]
+    return cands[k % len(cands)]
+
+
+def _other_unit(db, cat, k=0):
+    return db.GetDefaultUnit(_other_cat(db, cat, k))
+
+
 def entries(db, qt, cat, base, other, cur=None):
     """[(entry name, f(unit_string))] - every API entry that takes a unit string (statement's list)."""
     import numpy as np
@@ -104,6 +115,11 @@ def entries(db, qt, cat, base, other, cur=None):
         ("ObtainQuantity(u,c,caption)", lambda u: ObtainQuantity(u, cat, "cap")),
         ("Quantity(c,u)", lambda u: Quantity(cat, u)),
         ("ObtainQuantity(OrderedDict)", lambda u: ObtainQuantity(__import__("collections").OrderedDict([(cat, [u, 3])]))),
+        # a request naming several categories, the spelling in question not in the first position: the order of the categories
+        # is part of what the request names (and of the strings the quantity prints)
+        ("ObtainQuantity(OrderedDict, u second)", lambda u: (lambda q: [q, q.GetCategory(), q.GetUnit(), list(q.GetCategoryToUnitAndExps())])(ObtainQuantity(__import__("collections").OrderedDict([(_other_cat(db, cat), [_other_unit(db, cat), -1]), (cat, [u, 2])])))),
+        ("ObtainQuantity(list, u last)", lambda u: (lambda q: [q, q.GetCategory(), list(q.GetCategoryToUnitAndExps())])(ObtainQuantity([(_other_unit(db, cat), 1), (_other_unit(db, cat, 1), -2), (u, 1)], [_other_cat(db, cat), _other_cat(db, cat, 1), cat]))),
+        ("derived Scalar from a request, u second", lambda u: Scalar(ObtainQuantity(__import__("collections").OrderedDict([(_other_cat(db, cat), [_other_unit(db, cat), 1]), (cat, [u, -1])])), x)),
         ("Scalar(ObtainQuantity([(u,2)],[c]),x)", lambda u: Scalar(ObtainQuantity([(u, 2)], [cat]), x)),
         ("Scalar(x,u)", lambda u: Scalar(x, u)),
         ("Scalar(x,u,c)", lambda u: Scalar(x, u, cat)),
